@@ -156,6 +156,51 @@ m("c16-acceptcmd-trims", "C16", "net/rcon.go", "\treturn P, nil\n}\n\nfunc (r *R
 m("c16-acceptlogin-silent-reject", "C16", "net/rcon.go", "\t\treturn errors.New(\"password wrong\")", "\t\treturn nil")
 m("c16-respcmd-stale-id", "C16", "net/rcon.go", "\tr.ReqID = R\n\n\t// Check packet type\n\tif T != 2 {", "\tif r.ReqID == 0 {\n\t\tr.ReqID = R\n\t}\n\n\t// Check packet type\n\tif T != 2 {")
 
+# ---------------------------------------------------------------- C14 / C15
+for prop_ in ("C14", "C15"):
+    m("r-findspace-off-by-one-%s" % prop_, prop_, "save/region/mca.go", "\tfor i := int32(0); i < need; i++ {\n\t\tif r.sectors[n+i] {", "\tfor i := int32(0); i < need-1 || i < 1; i++ {\n\t\tif r.sectors[n+i] {")
+    m("r-not-marking-used-%s" % prop_, prop_, "save/region/mca.go", "\t\tfor i := int32(0); i < need; i++ {\n\t\t\tr.sectors[n+i] = true\n\t\t}", "\t\tfor i := int32(0); i < need-1; i++ {\n\t\t\tr.sectors[n+i] = true\n\t\t}")
+    m("r-sethead-slot-transposed-%s" % prop_, prop_, "save/region/mca.go", "\t_, err = r.writeAt(buf[:], 4*(int64(z)*32+int64(x)))", "\t_, err = r.writeAt(buf[:], 4*(int64(x)*32+int64(z)))")
+    m("r-need-rounding-%s" % prop_, prop_, "save/region/mca.go", "need := int32((len(data) + 4 + 4096 - 1) / 4096)", "need := int32((len(data) + 4096 - 1) / 4096)")
+    m("r-limit-off-by-one-%s" % prop_, prop_, "save/region/mca.go", "\tif need >= 256 {", "\tif need > 256 {")
+    m("r-inplace-when-smaller-%s" % prop_, prop_, "save/region/mca.go", "\tif n != 0 && now == need {", "\tif n != 0 && now >= need {")
+    m("r-inplace-when-larger-%s" % prop_, prop_, "save/region/mca.go", "\tif n != 0 && now == need {", "\tif n != 0 && now+1 >= need && now <= need {")
+    m("r-load-skips-freelist-%s" % prop_, prop_, "save/region/mca.go", "\t\t\tif o, s := sectorLoc(v); o != 0 {\n\t\t\t\tfor i := int32(0); i < s; i++ {", "\t\t\tif o, s := sectorLoc(v); o != 0 {\n\t\t\t\tfor i := int32(0); i < s-1; i++ {")
+    m("r-free-old-after-alloc-%s" % prop_, prop_, "save/region/mca.go", "\t\tfor i := int32(0); i < now; i++ {\n\t\t\tr.sectors[n+i] = false\n\t\t}", "\t\tfor i := int32(0); i <= now; i++ {\n\t\t\tr.sectors[n+i] = false\n\t\t}")
+    m("r-timestamp-slot-wrong-%s" % prop_, prop_, "save/region/mca.go", "\t_, err = r.writeAt(buf[:], 4096+4*(int64(z)*32+int64(x)))", "\t_, err = r.writeAt(buf[:], 4096+4*(int64(z)*32+int64(x)+1))")
+m("c14-limitreader-bound", "C14", "save/region/mca.go", "reader := io.LimitReader(r.f, 4096*int64(num))", "reader := io.LimitReader(r.f, 4096*int64(num)-4)")
+m("c14-exist-uses-timestamp", "C14", "save/region/mca.go", "\treturn r.offsets[z][x] != 0", "\treturn r.Timestamps[z][x] != 0")
+m("c14-pad-off", "C14", "save/region/mca.go", "\t\t_, err = r.f.Write(make([]byte, 4096-size%4096))", "\t\t_, err = r.f.Write(make([]byte, 4095-size%4096))")
+m("c14-toolarge-check-after-free", "C14", "save/region/mca.go",
+  "\t// maximum chunk size is 1MB\n\tif need >= 256 {\n\t\treturn ErrTooLarge\n\t}\n\n\tif n != 0 && now == need {",
+  "\tif need >= 256 {\n\t\tfor i := int32(0); i < now; i++ {\n\t\t\tr.sectors[n+i] = false\n\t\t}\n\t\treturn ErrTooLarge\n\t}\n\n\tif n != 0 && now == need {")
+m("c14-timestamp-inmem-only-on-new", "C14", "save/region/mca.go", "\t\tr.Timestamps[z][x] = int32(timestamp)", "\t\tif now == 0 {\n\t\t\tr.Timestamps[z][x] = int32(timestamp)\n\t\t}")
+m("c15-data-before-header", "C15", "save/region/mca.go",
+  "\t\t// update file head\n\t\ttimestamp := time.Now().Unix()\n\t\terr := r.setHead(x, z, uint32(r.offsets[z][x]), uint32(timestamp))\n\t\tif err != nil {\n\t\t\treturn err\n\t\t}",
+  "\t\t// update file head\n\t\ttimestamp := time.Now().Unix()\n\t\tif _, err := r.f.Seek(4096*int64(n), 0); err != nil {\n\t\t\treturn err\n\t\t}\n\t\tif err := binary.Write(r.f, binary.BigEndian, int32(len(data))); err != nil {\n\t\t\treturn err\n\t\t}\n\t\terr := r.setHead(x, z, uint32(r.offsets[z][x]), uint32(timestamp))\n\t\tif err != nil {\n\t\t\treturn err\n\t\t}")
+m("c15-scrub-freed-sectors", "C15", "save/region/mca.go",
+  "\t\t// scan for a free space large enough to store this chunk\n",
+  "\t\tif now > 0 {\n\t\t\tif _, err := r.f.Seek(4096*int64(n+now), 0); err == nil {\n\t\t\t\t_, _ = r.f.Write(make([]byte, 4))\n\t\t\t}\n\t\t}\n\t\t// scan for a free space large enough to store this chunk\n")
+m("c15-load-rejects-zero-count", "C15", "save/region/mca.go",
+  "\t\t\tif o, s := sectorLoc(v); o != 0 {\n", "\t\t\tif o, s := sectorLoc(v); o != 0 && s == 0 {\n\t\t\t\treturn nil, ErrNoSector\n\t\t\t} else if o != 0 {\n")
+m("c15-header-compaction", "C15", "save/region/mca.go",
+  "\t\tr.offsets[z][x] = (n << 8) | (need & 0xFF)\n",
+  "\t\tr.offsets[z][x] = (n << 8) | (need & 0xFF)\n\t\tif now == 0 && x > 0 && r.offsets[z][x-1] == 0 {\n\t\t\t_, _ = r.writeAt(make([]byte, 8), 4*(int64(z)*32+int64(x-1)))\n\t\t}\n")
+
+for prop_ in ("C14", "C15"):
+    m("r-grow-marks-one-less-%s" % prop_, prop_, "save/region/mca.go", "\t\tnow = need\n\t\tfor i := int32(0); i < need; i++ {\n\t\t\tr.sectors[n+i] = true\n\t\t}",
+      "\t\tgrown := now > 0 && need > now\n\t\tnow = need\n\t\tfor i := int32(0); i < need; i++ {\n\t\t\tif grown && i == need-1 {\n\t\t\t\tbreak\n\t\t\t}\n\t\t\tr.sectors[n+i] = true\n\t\t}")
+    m("r-shrink-frees-neighbour-%s" % prop_, prop_, "save/region/mca.go", "\t\tfor i := int32(0); i < now; i++ {\n\t\t\tr.sectors[n+i] = false\n\t\t}",
+      "\t\tfor i := int32(0); i < now || (need < now && i == now); i++ {\n\t\t\tr.sectors[n+i] = false\n\t\t}")
+    m("r-free-uses-need-%s" % prop_, prop_, "save/region/mca.go", "\t\tfor i := int32(0); i < now; i++ {\n\t\t\tr.sectors[n+i] = false\n\t\t}",
+      "\t\tfor i := int32(0); n != 0 && i < need; i++ {\n\t\t\tr.sectors[n+i] = false\n\t\t}")
+    m("r-load-forgets-timestamp-sector-%s" % prop_, prop_, "save/region/mca.go", "\tr.sectors[1] = true\n\n\t// generate sectorFree table", "\n\t// generate sectorFree table")
+    m("r-load-count-mask-%s" % prop_, prop_, "save/region/mca.go", "return (offset >> 8) & 0xFFFFFF, offset & 0xFF", "return (offset >> 8) & 0xFFFFFF, offset & 0x7F")
+    m("r-timestamp-spill-%s" % prop_, prop_, "save/region/mca.go", "\tbinary.BigEndian.PutUint32(buf[:], timestamp)\n\t_, err = r.writeAt(buf[:], 4096+4*(int64(z)*32+int64(x)))",
+      "\tvar tbuf [8]byte\n\tbinary.BigEndian.PutUint32(tbuf[:], timestamp)\n\t_, err = r.writeAt(tbuf[:4+4*(x&1)*(z&1)], 4096+4*(int64(z)*32+int64(x)))")
+    m("r-offset-spill-%s" % prop_, prop_, "save/region/mca.go", "\tbinary.BigEndian.PutUint32(buf[:], offset)\n\t_, err = r.writeAt(buf[:], 4*(int64(z)*32+int64(x)))",
+      "\tvar obuf [8]byte\n\tbinary.BigEndian.PutUint32(obuf[:], offset)\n\t_, err = r.writeAt(obuf[:4+4*(x&1)*(z&1)], 4*(int64(z)*32+int64(x)))")
+
 
 def sh(cmd, cwd=None, timeout=3600, env=ENV):
     p = subprocess.run(cmd, shell=True, cwd=cwd, env=env, stdout=subprocess.PIPE, stderr=subprocess.STDOUT, text=True, timeout=timeout)
